@@ -795,11 +795,12 @@ func (ex *Exec) doAppend(fr *Frame, st *State, c *ssa.CallCommon, args []SVal, p
 	s, t := args[0].T, args[1].T
 	u := c.Args[0].Type().Underlying().(*types.Slice)
 	h := ex.w.elemHeap(u.Elem())
-	if ex.w.sortOf(c.Args[1].Type()) == "Str" {
-		// append([]byte, string...)
-		ex.errorf("append of string unsupported")
-	}
+	// the appended elements: element j of the slice t, or byte j of the string t (append([]byte, string...))
+	fromStr := ex.w.sortOf(c.Args[1].Type()) == "Str"
 	n := sLen(t)
+	if fromStr {
+		n = "(strlen " + t + ")"
+	}
 	newLen := ex.fresh("applen", "Int")
 	st.assume(eq(newLen, add(sLen(s), n)))
 	inPlace := le(newLen, sCap(s))
@@ -824,13 +825,19 @@ func (ex *Exec) doAppend(fr *Frame, st *State, c *ssa.CallCommon, args []SVal, p
 	// in place: everything outside the appended window keeps its value; the window holds t
 	st.assume(implies(inPlace, fmt.Sprintf("(forall ((i Int)) (! (=> (or (< i %s) (>= i (+ %s %s))) (= (select %s i) (select (select %s %s) i))) %s))",
 		base, base, n, nt, old, sArr(s), pat)))
-	st.assume(implies(inPlace, fmt.Sprintf("(forall ((i Int)) (! (=> (and (<= %s i) (< i (+ %s %s))) (= (select %s i) (select (select %s %s) (+ %s (- i %s))))) %s))",
-		base, base, n, nt, old, sArr(t), sOff(t), base, pat)))
+	srcAt := func(j string) string { // element j of t
+		if fromStr {
+			return "(byteAt " + t + " " + j + ")"
+		}
+		return fmt.Sprintf("(select (select %s %s) (+ %s %s))", old, sArr(t), sOff(t), j)
+	}
+	st.assume(implies(inPlace, fmt.Sprintf("(forall ((i Int)) (! (=> (and (<= %s i) (< i (+ %s %s))) (= (select %s i) %s)) %s))",
+		base, base, n, nt, srcAt("(- i "+base+")"), pat)))
 	// reallocated: copy of s at offset 0, then t
 	st.assume(implies(not(inPlace), fmt.Sprintf("(forall ((i Int)) (! (=> (and (<= 0 i) (< i %s)) (= (select %s i) (select (select %s %s) (+ %s i)))) %s))",
 		sLen(s), nt, old, sArr(s), sOff(s), pat)))
-	st.assume(implies(not(inPlace), fmt.Sprintf("(forall ((i Int)) (! (=> (and (<= %s i) (< i %s)) (= (select %s i) (select (select %s %s) (+ %s (- i %s))))) %s))",
-		sLen(s), newLen, nt, old, sArr(t), sOff(t), sLen(s), pat)))
+	st.assume(implies(not(inPlace), fmt.Sprintf("(forall ((i Int)) (! (=> (and (<= %s i) (< i %s)) (= (select %s i) %s)) %s))",
+		sLen(s), newLen, nt, srcAt("(- i "+sLen(s)+")"), pat)))
 	// the kept prefix in relative form (both cases at once): res[j] == s[j] - a consequence of the facts above whose
 	// pattern is the idx() form contracts use for elements of the new slice
 	st.assume(fmt.Sprintf("(forall ((j Int)) (! (=> (and (<= 0 j) (< j %s)) (= (select %s (idx %s j)) (select (select %s %s) (idx %s j)))) :pattern ((select %s (idx %s j)))))",
@@ -840,7 +847,11 @@ func (ex *Exec) doAppend(fr *Frame, st *State, c *ssa.CallCommon, args []SVal, p
 	if k, err := strconv.Atoi(n); err == nil && k >= 1 && k <= 4 {
 		for j := 0; j < k; j++ {
 			js := strconv.Itoa(j)
-			st.assume(eq(sel(nt, idxT(sOff(res), add(sLen(s), js))), sel(sel(old, sArr(t)), idxT(sOff(t), js))))
+			if fromStr {
+				st.assume(eq(sel(nt, idxT(sOff(res), add(sLen(s), js))), "(byteAt "+t+" "+js+")"))
+			} else {
+				st.assume(eq(sel(nt, idxT(sOff(res), add(sLen(s), js))), sel(sel(old, sArr(t)), idxT(sOff(t), js))))
+			}
 		}
 	}
 	return SVal{T: res}
